@@ -166,7 +166,7 @@ let finish (c : case) =
   let img = if c.fmt = "mps" then Model.mps_image c.wzo p else Model.lpf_image c.wzo p in
   let base = if c.fmt = "mps" then Model.drop_offset (Model.mps_max_to_min p) else Model.drop_offset (Model.split_ranges p) in
   let keep = if c.wzo then List.map (fun _ -> true) base.Model.l_cols else Model.used_mask base in
-  Printf.printf "CASE %s\nKEEP %s\nIMG %s\n" c.id (String.concat "" (List.map (fun k -> if k then "1" else "0") keep)) (dump img)
+  Printf.printf "CASE %s\nDUAL %s\nKEEP %s\nIMG %s\n" c.id (dump (Model.dual_of p)) (String.concat "" (List.map (fun k -> if k then "1" else "0") keep)) (dump img)
 
 let rt_mode file =
   let lines = read_lines (open_in file) in
